@@ -118,15 +118,18 @@ def main(argv):
                         prop_fail.append({"input": inp, "kind": "a contract of the trusted strconv oracles failed (ParseFloat(FormatFloat f) != f)",
                                           "finding": None, "agrees_with_model": True})
                     continue
-                if kind in ("val", "scr"):
+                if kind in ("val", "scr", "pty", "pts"):
                     stats["val"] += 1
                     if kind == "scr":
                         stats["scr"] = stats.get("scr", 0) + 1
+                    if kind in ("pty", "pts"):
+                        # printed under (pretty true): the model is Model/PrinterPretty.v pprint true
+                        stats["pretty"] = stats.get("pretty", 0) + 1
                     im, mo, sp = fields(impl), fields(model), fields(spec)
                     agrees = im.get("P") == mo.get("P") and im.get("R") == mo.get("R") and rpnorm(im.get("RP")) == rpnorm(mo.get("RP")) and im.get("PC") == mo.get("PC") and "BADTOK" not in model
                     if not agrees:
                         corr_fail.append({"input": inp, "printed": text_of(im.get("P")), "implementation": "P=%s ;; R=%s ;; RP=%s ;; PC=%s" % (im.get("P"), im.get("R"), im.get("RP"), im.get("PC")),
-                                          "model": model, "what": "printed bytes (SexpString vs print) / parse of the printed text (vs lex_all + parse_whole) / the REPL reader on the printed text (RP, vs parse_pieces over its lines)"})
+                                          "model": model, "what": ("PRETTY mode ((pretty true)): SexpString vs Model/PrinterPretty.v pprint true; " if kind in ("pty", "pts") else "") + "printed bytes (SexpString vs print) / parse of the printed text (vs lex_all + parse_whole) / the REPL reader on the printed text (RP, vs parse_pieces over its lines)"})
                     if mo.get("EV", "-") != "-" and im.get("E") != mo["EV"]:
                         agrees = False
                         corr_fail.append({"input": inp, "printed": text_of(im.get("P")), "implementation": "E=%s" % im.get("E"), "model": "EV=%s" % mo["EV"],
